@@ -112,22 +112,21 @@ Print Assumptions prune_limits_no_panic.
 
 (* PARTIAL (the Rabin iterator belongs to property C06): the two parameter-dependent
    subtractions of ChunkIter::next are safe when chunk_min_size >= BUF_SIZE - 1.
-   Full statement wanted by C18: for every accepted configuration.  Refuted below. *)
+   Accepted Rabin configurations satisfy the premise since the C06 fix (chunk_min_size >= BUF_SIZE). *)
 Theorem rabin_next_arith_ok_partial : forall mn leftover len,
   BUF_SIZE - 1 <= mn -> mn <= ty_max U64 -> 0 <= leftover <= BUF_SIZE - 1 -> mn <= len <= ty_max U64 ->
   rabin_next_arith mn leftover len <> None.
 Proof. exact rabin_next_arith_ok_lemma. Qed.
 Print Assumptions rabin_next_arith_ok_partial.
 
-(* OPEN FINDING: an accepted Rabin configuration (avg 1024, min 10, max 2048) underflows. *)
-Theorem rabin_small_min_size_refuted :
+(* Repaired (fix commit of property C06): the formerly accepted configuration avg 1024 / min 10 /
+   max 2048, whose iterator arithmetic underflows, is refused by check_rabin_params. *)
+Theorem rabin_small_min_size_refused :
   let o := mk [(O_set_chunk_size, 1024); (O_set_chunk_min_size, 10); (O_set_chunk_max_size, 2048)] in
-  let r := apply_mut o (new_config 7 9) in
-  snd r = Done /\ opts_wf o = true /\
-  rabin_next_arith (cfg_chunk_min_size (fst r)) (BUF_SIZE - 1) (cfg_chunk_min_size (fst r)) = None /\
-  rabin_next_arith (cfg_chunk_min_size (fst r)) 0 (cfg_chunk_min_size (fst r)) = None.
-Proof. exact rabin_small_min_refuted. Qed.
-Print Assumptions rabin_small_min_size_refuted.
+  opts_wf o = true /\ snd (apply_mut o (new_config 7 9)) <> Done /\
+  rabin_next_arith 10 (BUF_SIZE - 1) 10 = None.
+Proof. exact rabin_small_min_now_refused. Qed.
+Print Assumptions rabin_small_min_size_refused.
 
 (* History: the witnesses that refuted the property on the source before the fix commits
    (statement lists kept in History.v; replayed on the real code before fixing). *)
